@@ -132,7 +132,9 @@ def generate(seed: int, tier: str) -> dict:
         if chance(wr, 0.25):
             # an end date concerns formulas: inputs given for later periods - or for a long
             # period running past it - are inputs all the same
-            variables[-1]["end"] = pick(wr, ["2018-06-30", "2018-02-15", "2017-12-31", "2019-01-31"])
+            variables[-1]["end"] = pick(wr, ["2018-06-30", "2018-02-15", "2017-12-31", "2019-01-31",
+                                               # the last day a variable exists may be the first day of a period
+                                               "2018-01-01", "2018-02-01", "2018-07-01", "2018-02-28", "2019-01-01"])
     world = {"entities": ents, "enums": [], "parameters": {}, "variables": variables, "discipline": "acyclic"}
     situation = gen_situation(st["inputs"], world, max_persons=4)
     kr = st["knobs"]
@@ -495,7 +497,10 @@ def _read(sim, env, var, subs):
     with observing(env):
         holder = sim.get_holder(var)
         for s in subs:
-            out[s] = holder.get_array(_P(s))
+            try:
+                out[s] = holder.get_array(_P(s))
+            except Exception as e:  # noqa: BLE001  (e.g. a torn spill file that got indexed)
+                out[s] = numpy.array([f"unreadable: {type(e).__name__}"])
     return out
 
 
